@@ -35,11 +35,14 @@ class StrictFS(CachedFilesystem):
     want a function-level case to stat the real disk)."""
 
 
+MTIME_BASE, MTIME_STEP = 1_500_000_000.0, 0.25
+
+
 def mk_fs(files, universe):
     """files: abs path -> mtime; universe: all abs paths of the case (missing ones cached as None)."""
     cache = {p: None for p in universe}
     # quarter-second spacing: ranks 1,2,3 all fall into one whole second (a truncating comparison would merge them)
-    cache.update({p: 1_500_000_000.0 + 0.25 * float(m) for p, m in files.items()})
+    cache.update({p: MTIME_BASE + MTIME_STEP * float(m) for p, m in files.items()})
     return CachedFilesystem(cache=cache)
 
 
